@@ -823,5 +823,21 @@ V('C18', 'writer-wraps-reader-splits-on-whitespace', 'silent', '', 'the pretty-p
   ('src/pyhf/writexml.py', 'import shutil\n', 'import shutil\nimport textwrap\n'),
   ('src/pyhf/writexml.py', '        if not elem.text or not elem.text.strip():\n            elem.text = i + "  "\n        if not elem.tail or not elem.tail.strip():\n            elem.tail = i\n        for subelem in elem:\n', '        if not elem.text or not elem.text.strip():\n            elem.text = i + "  "\n        elif len(elem) == 0 and len(elem.text) > 120:\n            elem.text = textwrap.fill(elem.text, width=120, break_long_words=False, break_on_hyphens=False)\n        if not elem.tail or not elem.tail.strip():\n            elem.tail = i\n        for subelem in elem:\n'),
   ('src/pyhf/readxml.py', "                for param_name in param.text.strip().split(' '):\n", '                for param_name in param.text.split():\n'))
+V('C17', 'resolver-memoised-per-schema-name', 'fire', 'C17.R7', 'the reference resolver is built once per (schema, version) and keeps the schema directory of its first use',
+  ('src/pyhf/schema/validator.py', 'import numbers\n', 'import functools\nimport numbers\n'),
+  ('src/pyhf/schema/validator.py', 'def validate(\n    spec: Mapping,\n', '@functools.lru_cache(maxsize=None)\ndef _get_resolver(schema_name, version):\n    return jsonschema.RefResolver(\n        base_uri=f"{Path(variables.schemas).joinpath(version).as_uri()}/",\n        referrer=schema_name,\n        store=variables.SCHEMA_CACHE,\n    )\n\n\ndef validate(\n    spec: Mapping,\n'),
+  ('src/pyhf/schema/validator.py', '    resolver = jsonschema.RefResolver(\n        base_uri=f"{Path(variables.schemas).joinpath(version).as_uri()}/",\n        referrer=schema_name,\n        store=variables.SCHEMA_CACHE,\n    )\n', '    resolver = _get_resolver(schema_name, version)\n'))
+V('C17', 'base-uri-helper-memoised-on-its-arguments', 'silent', '', 'a memoised helper that computes the base URI from its arguments alone',
+  ('src/pyhf/schema/validator.py', 'import numbers\n', 'import functools\nimport numbers\n'),
+  ('src/pyhf/schema/validator.py', 'def validate(\n    spec: Mapping,\n', '@functools.lru_cache(maxsize=None)\ndef _base_uri(schemas, version):\n    return f"{Path(schemas).joinpath(version).as_uri()}/"\n\n\ndef validate(\n    spec: Mapping,\n'),
+  ('src/pyhf/schema/validator.py', '    resolver = jsonschema.RefResolver(\n        base_uri=f"{Path(variables.schemas).joinpath(version).as_uri()}/",\n        referrer=schema_name,\n        store=variables.SCHEMA_CACHE,\n    )\n', '    resolver = jsonschema.RefResolver(\n        base_uri=_base_uri(variables.schemas, version),\n        referrer=schema_name,\n        store=variables.SCHEMA_CACHE,\n    )\n'))
+V('C11', 'band-sigmas-memoised-as-backend-tensor', 'fire', 'C11.R9', 'the N-sigma list of the expected band is built once as a tensor of the backend current at that time',
+  ('src/pyhf/infer/calculators.py', 'import logging\n', 'import functools\nimport logging\n'),
+  ('src/pyhf/infer/calculators.py', '@dataclass(frozen=True)\nclass HypoTestFitResults:', '@functools.lru_cache(maxsize=None)\ndef _band_sigmas():\n    tensorlib, _ = get_backend()\n    return [tensorlib.astensor(n) for n in (2, 1, 0, -1, -2)]\n\n\n@dataclass(frozen=True)\nclass HypoTestFitResults:'),
+  ('src/pyhf/infer/calculators.py', '                            for n_sigma in [2, 1, 0, -1, -2]\n', '                            for n_sigma in _band_sigmas()\n'))
+V('C11', 'band-sigmas-memoised-as-plain-tuple', 'silent', '', 'the N-sigma list of the expected band memoised as plain python numbers',
+  ('src/pyhf/infer/calculators.py', 'import logging\n', 'import functools\nimport logging\n'),
+  ('src/pyhf/infer/calculators.py', '@dataclass(frozen=True)\nclass HypoTestFitResults:', '@functools.lru_cache(maxsize=None)\ndef _band_sigmas():\n    return (2, 1, 0, -1, -2)\n\n\n@dataclass(frozen=True)\nclass HypoTestFitResults:'),
+  ('src/pyhf/infer/calculators.py', '                            for n_sigma in [2, 1, 0, -1, -2]\n', '                            for n_sigma in _band_sigmas()\n'))
 V("C13", "code4-exponent-mask-strict", "fire", "C13.R3", "code 4 takes exponent 1 (a constant) exactly at |alpha| = alpha0",
   ("src/pyhf/interpolators/code4.py", "            exponents >= self.__alpha0, exponents, self.ones", "            exponents > self.__alpha0, exponents, self.ones"))
